@@ -7,17 +7,24 @@ From Coq Require Import List Bool Arith Lia.
 Import ListNotations.
 From EN Require Import Gen.ParamsC14 Conc.Close Proofs.C14_proofs.
 
-(* close_closes: for every close path except the teardown that follows a handler's own client.aclose() (covered by
-   client_task_exit_closes below), every transport shape, every number of suspension points and every choice of
-   outcome at each of them, when nobody else is sending every leaf transport ends up closing.  For TLS wrap the
-   statement is about the failing outcomes. *)
+(* close_closes: for every close path (the teardown paths included), every transport shape, every number of
+   suspension points and every choice of outcome at each of them, when nobody else is sending every leaf transport
+   ends up closing.  For TLS wrap the statement is about the failing outcomes. *)
 Theorem close_closes : forall (p : path) (ls : list xlabel),
-  match p with PTaskExit _ true => False | _ => True end ->
   let '(r, w', ls') := run_path p env0 (world0 false) ls in
   (match p with PWrap _ _ => r <> ROk | _ => True end) ->
   forall i, In i (leaves (tr_base (path_tr p))) -> w_leaf w' i = true.
-Proof. exact paths_close. Qed.
+Proof. exact paths_close_all. Qed.
 Print Assumptions close_closes.
+
+(* the teardown of the server's client task -- with or without a client.aclose() by the handler first, with the send
+   lock and guard free or held by a blocked sender (lock = true) -- closes every leaf, whatever happens at every
+   suspension point *)
+Theorem teardown_closes_always : forall t inner lock ls,
+  let '(r, w', ls') := run_path (PTaskExit t inner) env0 (world0 lock) ls in
+  forall i, In i (leaves (tr_base t)) -> w_leaf w' i = true.
+Proof. exact teardown_closes. Qed.
+Print Assumptions teardown_closes_always.
 
 (* F7: AsyncTCPNetworkClient.aclose() cancelled while waiting for the send lock held by a suspended sender leaves
    the transport open (as long as the code has no forced fallback) *)
@@ -80,14 +87,30 @@ Proof.
 Qed.
 Print Assumptions api_lock_contention_status.
 
-(* the client task's exit stack closes the transport whatever the handler did (lock and guard may be held), provided
-   the handler left the TLS layer's closing flag alone *)
-Theorem client_task_exit_closes : forall t handler e w ls,
-  (forall e w ls, let '(r, w', ls') := handler e w ls in fresh t w -> fresh t w' /\ le w w') -> fresh t w ->
+(* the client task's exit stack closes the transport after ANY handler that (a) never re-opens a leaf and (b) keeps
+   "once the TLS layer says closing, its leaves are closed" -- true of every program of Conc/Close.v between
+   complete operations (api_aclose_keeps_tls_invariant below); lock and guard may be held *)
+Theorem client_task_exit_closes : forall t (handler : M) e w ls,
+  (forall e w ls, tinv t w -> let '(r, w', ls') := handler e w ls in tinv t w' /\ le w w') -> tinv t w ->
   let '(r, w', ls') := client_task_exit handler t e w ls in
   forall i, In i (leaves (tr_base t)) -> w_leaf w' i = true.
-Proof. exact task_exit_closes. Qed.
+Proof. exact task_exit_closes_tinv. Qed.
 Print Assumptions client_task_exit_closes.
+
+(* tinv and le written out, so that the hypothesis above cannot be weakened quietly *)
+Theorem tinv_le_definitions : forall t w w',
+  (tinv t w <-> match t with
+                | TPlain _ => True
+                | TTls _ b => w_tls_closing w = true -> forall i, In i (leaves b) -> w_leaf w i = true
+                end) /\
+  (le w w' <-> forall i, w_leaf w i = true -> w_leaf w' i = true).
+Proof. intros t w w'. split; [destruct t; simpl; tauto | unfold le; tauto]. Qed.
+Print Assumptions tinv_le_definitions.
+
+Theorem api_aclose_keeps_tls_invariant : forall t e w ls, tinv t w ->
+  let '(r, w', ls') := api_aclose t e w ls in tinv t w' /\ le w w'.
+Proof. exact api_aclose_tinv. Qed.
+Print Assumptions api_aclose_keeps_tls_invariant.
 
 Theorem both_halves_closed : forall s r e w ls,
   let '(x, w', ls') := base_aclose (BStapled s r) e w ls in
